@@ -133,6 +133,7 @@ type rangeState struct {
 	keyT   types.Type
 	valT   types.Type
 	mapKey string
+	dom0   string // key set of the map when the range statement started
 }
 
 type execErr struct{ msg string }
@@ -1807,6 +1808,10 @@ func (ex *Exec) rangeInstr(fr *frame, in *ssa.Range, g string, s *State) string 
 		srt := "(Array " + sortOf(xt.Key()) + " Bool)"
 		u.keySort(key, srt)
 		s.vars[key] = "((as const " + srt + ") false)"
+		// Go: an entry present when the statement starts and not removed is produced exactly once;
+		// an entry added during the iteration may or may not be. Remember the starting key set.
+		_, dk0 := ex.mapKeys(xt)
+		rs.dom0 = u.define("rng.dom0", srt, sel(u.get(s, dk0), x.T))
 	case *types.Basic:
 		u.keySort(key, SInt)
 		s.vars[key] = "(- 1)"
@@ -1836,7 +1841,7 @@ func (ex *Exec) nextInstr(fr *frame, in *ssa.Next, g string, s *State) string {
 		v := ex.mapGet(s, rs.x, kv)
 		v = ex.nameVal(v, "rng.v")
 		u.fact(implies(and(g, ok), and(sel(dom, k), not(sel(visited, k)))))
-		u.fact(implies(and(g, not(ok)), "(forall ((k!r "+ks+")) (! (=> (select "+dom+" k!r) (select "+visited+" k!r)) :pattern ((select "+dom+" k!r))))"))
+		u.fact(implies(and(g, not(ok)), "(forall ((k!r "+ks+")) (! (=> (and (select "+rs.dom0+" k!r) (select "+dom+" k!r)) (select "+visited+" k!r)) :pattern ((select "+dom+" k!r)) :pattern ((select "+rs.dom0+" k!r))))"))
 		u.fact(implies(and(g, ok), ex.wf(v, s)))
 		s.vars[rs.key] = u.define("visited", u.keySorts[rs.key], ite(ok, store(visited, k, "true"), visited))
 		fr.regs[in] = Val{Typ: in.Type(), Tuple: []Val{{T: ok, Typ: tBool}, kv, v}}
